@@ -13,6 +13,13 @@ ASSUME = [
     "address no enabled transport can dial (noaddr), node without Kademlia (nokad), node killed before the request / when the "
     "connection is established / when the data arrives, silent peer (user protocol under /ipfs/kad/1.0.0 that never answers; "
     "variant that answers FIND_NODE only), inbound-only peer, local outgoing connection limit",
+    "every network runs over one transport dimension: tcp, ws (/ip4/127.0.0.1/tcp/0/ws), quic (/ip4/127.0.0.1/udp/0/quic-v1, "
+    "connection_open_timeout 5 s = quinn handshake and idle timeout) or mix (every node listens on all three; the addresses told "
+    "to the others are one, two or three of them per node); fault nodes per transport: ws undialable = bound-not-listening TCP port "
+    "behind a /ws address, quic undialable = bound UDP socket nobody reads, quic refusing = live endpoint with another identity, "
+    "noaddr = address of a transport that is compiled but not enabled (plain /udp in mix), decoy = live node whose routing "
+    "entries also carry dead addresses (of the other transports in mix); over quic / mix every scenario with a fault adds "
+    "2 x 5 s (dial deadline) per phase to the timeouts before the x3",
     "deadline per scenario = 3 x (compile-time / default timeouts that fire on its path: 15 s executor read timeout per silent "
     "phase, 5 s keep-alive, 5 s substream open) + 30 s; a scenario in which any node's own watchdog or the controller saw a "
     "scheduling delay above 2 s is discarded and re-run once, never judged",
@@ -366,7 +373,7 @@ def run_harness(ctx, scen, tag, parallel, env=None):
 
 
 def run_all(ctx, scen, env=None):
-    parallel = 32 if ctx.quick() else 28
+    parallel = int(os.environ.get("VERIF_PARALLEL", "32" if ctx.quick() else "40"))
     summ, lines, diags = run_harness(ctx, scen, "a", parallel, env)
     if summ["setup_errors"]:
         raise ToolError("harness could not set up %d scenarios: %s" % (summ["setup_errors"], summ["errors"]))
